@@ -168,6 +168,8 @@ class TransposeIndexRule(AbstractBinaryRule):
         assert isinstance(index, Array)
 
         size_max = shape[axis]
+        # negative indices alias non-negative ones: count them together
+        index = jnp.where(index < 0, index + size_max, index)
         unique_indices, counts = jnp.unique(index, return_counts=True, size=size_max, fill_value=-1)
         coverage = jnp.zeros(size_max, dtype=dtype)
         coverage = coverage.at[unique_indices].add(
